@@ -21,7 +21,7 @@ func TestKnownOversizeHeadOfLine(t *testing.T) {
 	if err != nil {
 		t.Fatal(err)
 	}
-	defer func() { _ = ic.Close() }()
+	defer kit.BoundedClose(ic.Close)
 	sink := &kit.RTPSink{}
 	w := ic.BindLocalStream(&interceptor.StreamInfo{SSRC: 1}, sink)
 	big := rtp.Header{Version: 2, SSRC: 1, SequenceNumber: 1, CSRC: make([]uint32, 15)}
